@@ -485,6 +485,15 @@ func (s *Scenario) buildWorld(W string, src []byte, image []byte) (*worldPaths, 
 		dstArg = dstAbs
 	case "emptyarg":
 		dstAbs, dstArg = filepath.Join(W, "out", "never-created"), ""
+	case "hardlink_to_src", "symlink_to_src": // the output is the source file under another name
+		if s.SrcKind != "file" && s.SrcKind != "" {
+			panic(modelErr(s.DstKind + " needs a plain source file"))
+		}
+		if s.DstKind == "hardlink_to_src" {
+			must(os.Link(srcAbs, dstAbs))
+		} else {
+			must(os.Symlink(srcAbs, dstAbs))
+		}
 	case "dev_null":
 		dstAbs, dstArg = "/dev/null", "/dev/null"
 	case "trailing_slash": // "out/name/" cannot be created as a file
@@ -610,7 +619,7 @@ func (s *Scenario) expect(imageClass string, nlines int, fired int) expectation 
 		e.Why = "fault plan active: only G1/G2"
 		return e
 	}
-	if s.SrcKind == "same_as_dst" && (srcFault || dstFault) {
+	if (s.SrcKind == "same_as_dst" || s.DstKind == "hardlink_to_src" || s.DstKind == "symlink_to_src") && (srcFault || dstFault) {
 		e.Why = "fault on a path that is both source and destination: only G1/G2"
 		return e
 	}
@@ -983,7 +992,7 @@ func (c *c19Ctx) execute(s *Scenario, keepDir bool) (out *ScenarioOutcome, viol 
 	}
 	viol = judge(s, e, out, image, imageClass)
 	// heal step: once the fault stops, the same command must succeed on the world left behind
-	if viol == nil && s.Fault != nil && s.SrcKind != "same_as_dst" { // (with src == dst the first run consumed its own source)
+	if viol == nil && s.Fault != nil && s.SrcKind != "same_as_dst" && s.DstKind != "hardlink_to_src" && s.DstKind != "symlink_to_src" { // (with src == dst the first run consumed its own source)
 		s2 := *s
 		s2.Fault = nil
 		e2 := s2.expect(imageClass, nlines, 0)
